@@ -265,7 +265,7 @@ def codegen_theorem(chk, tier, d):
         jobs.append(dict(module="XCodeGenMC", cfg=cfg, workers=1, heap="3g", timeout=12000,
                          env={"WHICH": which, "SLICE": str(sl), "NSL": str(nsl), "STRIDE": str(stride), "DEV": dev, "OUT": o}))
     for sl in range(16):
-        job("XCodeGenMC.cfg", "", sl, 16, 40 if tier == "quick" else 1)
+        job("XCodeGenMC.cfg", "", sl, 16, 70 if tier == "quick" else 1)
     for sl in range(4):
         job("XCodeGenMC.cfg", "calls", sl, 4, 1)
     job("XCodeGenMC_nosave.cfg", "", 0, 400, 1, "nosave")
